@@ -3,7 +3,7 @@
    Models: Misc/Hlog.v (response proxy of AccessHandler, WrapWriter selection),
    Misc/HlogHeap.v (slices over backing arrays; NewHandler's With().Logger() copy
    and the field handlers' UpdateContext appends). *)
-From Verif Require Import Base.Prelude Misc.Hlog Misc.HlogHeap Proofs.HlogP.
+From Verif Require Import Base.Prelude Misc.Hlog Misc.HlogNest Misc.HlogHeap Proofs.HlogP Proofs.HlogNestP.
 
 (* ---------------- what AccessHandler reports ---------------- *)
 Open Scope Z_scope.
@@ -46,6 +46,23 @@ Theorem C18_wrap_writer_selection : forall c,
   wrap_writer c = KFlush /\ c_flusher c = true /\ (c_closenotifier c && c_hijacker c && c_readerfrom c = false) \/
   wrap_writer c = KBasic /\ c_flusher c = false.
 Proof. exact wrap_writer_cases. Qed.
+
+(* Stacked AccessHandlers (Misc/HlogNest.v): the ResponseWriter an AccessHandler is given is the proxy of another
+   AccessHandler further out, and calls are made between the two (a middleware sending a prefix or the status
+   before it calls the next handler, or something after it returned).  [xs] lists every call in execution order
+   with the number of proxies it passes through.  For EVERY capability set of the underlying writer, EVERY number
+   of stacked handlers, EVERY placement of the calls and EVERY answer of the underlying writer: the j-th
+   AccessHandler from the outside reports the first WriteHeader made INSIDE it (200 if a body write came first, 0
+   if nothing was sent inside it) and the (wrapping) sum of the byte counts accepted for the body writes made
+   inside it - whatever was sent outside it; and when every call goes through the outermost one, the underlying
+   writer received that one's status first and accepted exactly its body writes. *)
+Theorem C18_nested_status_bytes : forall c levels xs,
+  let '(reps, calls) := nest_report c levels xs in
+  let k := wrap_writer c in
+  reps = map (fun j => (spec_status k (ops_from j xs), wsum 0 (accepted_list k (ops_from j xs)))) (seq 1 levels) /\
+  ((1 <= levels)%nat -> Forall (fun dx => (1 <= fst dx)%nat) xs ->
+   first_header calls = spec_status k (ops_from 1 xs) /\ accepted_calls calls = accepted_list k (ops_from 1 xs)).
+Proof. exact nested_status_bytes. Qed.
 
 Close Scope Z_scope.
 Open Scope nat_scope.
@@ -101,6 +118,13 @@ Proof. vm_compute. reflexivity. Qed.
 Example C18_ex_base_ok : base_ok demo_h0 (Some demo_base) /\ base_ok [] None.
 Proof. cbv -[lt]. repeat split; lia. Qed.
 
+(* a middleware between two AccessHandlers sends 202 and a 6-byte prefix, the inner handler writes 7 bytes *)
+Example C18_ex_nested :
+  nest_report {| c_closenotifier := false; c_flusher := false; c_hijacker := false; c_readerfrom := false |} 2
+    [(1, OWriteHeader 202); (1, OWrite 6 {| o_n := 6; o_err := false |}); (2, OWrite 7 {| o_n := 7; o_err := false |})]
+  = ([(202, 13); (200, 7)], [UWriteHeader 202; UWrite 6 6; UWrite 7 7])%Z.
+Proof. exact nested_example. Qed.
+
 (* two requests, interleaved, base with spare capacity: each sees only its own bytes *)
 Example C18_ex_isolated :
   let s := run_sched true (fun c n => 2 * c) (Some demo_base) (init_state demo_h0 [[[44; 65; 65]%N]; [[44; 66; 66]%N]]) [0; 1; 0; 1] in
@@ -117,6 +141,7 @@ Proof. exact without_copy_requests_interfere. Qed.
 
 Print Assumptions C18_status_bytes.
 Print Assumptions C18_status_bytes_wrap.
+Print Assumptions C18_nested_status_bytes.
 Print Assumptions C18_first_header_wins.
 Print Assumptions C18_wrap_writer_selection.
 Print Assumptions C18_request_isolation.
